@@ -205,14 +205,20 @@ class TokenParser(Parser):
 
         fields = []
         tokens.consume()
-        while len(tokens):
-            if tokens.next == self.TOK.BLOCK and tokens.next.value == "}":
-                tokens.consume()
-                break
+        try:
+            while len(tokens):
+                if tokens.next == self.TOK.BLOCK and tokens.next.value == "}":
+                    tokens.consume()
+                    break
 
-            # A count that names an earlier field is evaluated when parsing, also when a constant has that name
-            field = self._parse_field(tokens, {f._name for f in fields})
-            fields.append(field)
+                # A count that names an earlier field is evaluated when parsing, also when a constant has that name
+                field = self._parse_field(tokens, {f._name for f in fields})
+                fields.append(field)
+        except Exception:
+            if registered:
+                # A definition that fails does not leave the empty pre-registered type behind
+                self.cstruct.typedefs.pop(ident.value, None)
+            raise
 
         if register:
             names.extend(self._names(tokens))
@@ -235,7 +241,11 @@ class TokenParser(Parser):
                 st = compiler.compile(st)
         else:
             st.__fields__.extend(fields)
-            st.commit()
+            try:
+                st.commit()
+            except Exception:
+                self.cstruct.typedefs.pop(ident.value, None)
+                raise
 
         # This is pretty dirty
         if register:
